@@ -42,10 +42,12 @@ func (w *World) hostileValue(kind int, fallback []byte) []byte {
 		// A verbatim copy is inconsistent only because it cannot be stored at the offset
 		// it records - which holds as long as the file never shrinks.  In a case that
 		// contains a FlushRevert the copy could land exactly there again, i.e. become a
-		// complete self-consistent root record: use the truncated copy instead.
+		// complete self-consistent root record: there the copy's recorded offset is
+		// moved beyond any possible file size (everything else stays byte-exact).
 		for i := range w.c.Ops {
 			if w.c.Ops[i].K == OpRevert {
-				kind = 2
+				o := binary.BigEndian.Uint64(rec[len(rec)-24:])
+				binary.BigEndian.PutUint64(rec[len(rec)-24:], o+1<<40)
 				break
 			}
 		}
